@@ -96,6 +96,11 @@ Theorem C14_declared : offending all_tables = [].
 Proof. vm_compute. reflexivity. Qed.
 Print Assumptions C14_declared.
 
+(* ... and that table has, for every package whose constructors branch on ProtocolOptions.Mode, all
+   three mode columns (NtN, NtC, omitted) in both roles, so C14_declared ranges over the three values *)
+Theorem C14_mode_columns : missing_columns all_tables mode_branching = [].
+Proof. vm_compute. reflexivity. Qed.
+
 (* per-instance reading of C14_fires/C14_none on the generated tables: for
    every automaton and state, the timer armed by a non-initial entry has
    exactly the generated Timeout as its duration (TimeoutFunc states: the
